@@ -271,6 +271,16 @@ func (p *provider) updateRuleSet(oldObj, newObj any) {
 	newRS := newObj.(*v1alpha4.RuleSet) // nolint: forcetypeassert
 	oldRS := oldObj.(*v1alpha4.RuleSet) // nolint: forcetypeassert
 
+	if oldRS.UID != newRS.UID {
+		// the resource has been deleted and a new one has been created with the same name, while
+		// the corresponding events have been missed (e.g. due to a connection loss). The generation
+		// of the new resource says nothing about the old one.
+		p.deleteRuleSet(oldRS)
+		p.addRuleSet(newRS)
+
+		return
+	}
+
 	if oldRS.Generation == newRS.Generation {
 		// we're only interested in Spec updates. Changes in metadata or status are not of relevance
 		return
